@@ -794,3 +794,304 @@ Proof. eexists. split; [vm_compute; reflexivity|]. split; [reflexivity|]. split;
 Lemma end_without_start_raises :
   exists s, back_init 100 [ (0%N, Some 5, None, 3%N) ] = Some s /\ check_stn s = true /\ back_convert s = BackError.
 Proof. eexists. split; [vm_compute; reflexivity|]. split; vm_compute; reflexivity. Qed.
+(* ------------------------------------------------------------------ J. the nodes of the constraints generated by _convert_to_stn *)
+Definition dict_all (Q : N -> oq * oq * N -> Prop) (m : cdict) : Prop :=
+  forall k l v, In (k, l) m -> In v l -> Q k v.
+Definition no_empty (m : cdict) : Prop := forall k l, In (k, l) m -> l <> [].
+Definition din (k : N) (v : oq * oq * N) (m : cdict) : Prop := exists l, In (k, l) m /\ In v l.
+
+Lemma dict_all_append (Q : N -> oq * oq * N -> Prop) k v : forall m, dict_all Q m -> Q k v -> dict_all Q (dict_append k v m).
+Proof.
+  induction m as [|[k' l'] m IH]; intros Hm Hv; simpl.
+  - intros k0 l0 v0 [H|[]] Hin. inversion H; subst. destruct Hin as [<-|[]]. exact Hv.
+  - destruct (N.eqb_spec k k').
+    + subst. intros k0 l0 v0 [H|H] Hin.
+      * inversion H; subst. apply in_app_or in Hin. destruct Hin as [Hin|[<-|[]]]; [|exact Hv].
+        eapply Hm; [left; reflexivity | exact Hin].
+      * eapply Hm; [right; exact H | exact Hin].
+    + intros k0 l0 v0 [H|H] Hin.
+      * inversion H; subst. eapply Hm; [left; reflexivity | exact Hin].
+      * eapply (IH (fun a b c H1 H2 => Hm a b c (or_intror H1) H2) Hv); eauto.
+Qed.
+
+Lemma no_empty_append k v : forall m, no_empty m -> no_empty (dict_append k v m).
+Proof.
+  induction m as [|[k' l'] m IH]; intros Hm; simpl.
+  - intros k0 l0 [H|[]]. inversion H; subst. discriminate.
+  - destruct (N.eqb_spec k k').
+    + intros k0 l0 [H|H]; [inversion H; subst; destruct l'; discriminate | eapply Hm; right; exact H].
+    + intros k0 l0 [H|H]; [eapply Hm; left; exact H | eapply (IH (fun a b H1 => Hm a b (or_intror H1))); exact H].
+Qed.
+
+Lemma din_append_new k v : forall m, din k v (dict_append k v m).
+Proof.
+  induction m as [|[k' l'] m IH]; simpl.
+  - exists [v]. split; left; reflexivity.
+  - destruct (N.eqb_spec k k').
+    + subst. exists (l' ++ [v]). split; [left; reflexivity | apply in_or_app; right; left; reflexivity].
+    + destruct IH as (l & H1 & H2). exists l. split; [right; exact H1 | exact H2].
+Qed.
+
+Lemma din_append_old k v k0 v0 : forall m, din k0 v0 m -> din k0 v0 (dict_append k v m).
+Proof.
+  induction m as [|[k' l'] m IH]; intros (l & H1 & H2); [destruct H1|]. simpl.
+  destruct (N.eqb_spec k k').
+  - subst. destruct H1 as [E|H1].
+    + inversion E; subst. exists (l ++ [v]). split; [left; reflexivity | apply in_or_app; left; exact H2].
+    + exists l. split; [right; exact H1 | exact H2].
+  - destruct H1 as [E|H1].
+    + exists l. split; [left; exact E | exact H2].
+    + destruct (IH (ex_intro _ l (conj H1 H2))) as (l1 & G1 & G2). exists l1. split; [right; exact G1 | exact G2].
+Qed.
+
+Lemma flatten_din m k v : din k v m -> In (mk_pcon k v) (flatten m).
+Proof.
+  intros (l & H1 & H2). unfold flatten. apply in_flat_map. exists (k, l). split; [exact H1|]. simpl.
+  destruct l as [|v0 l]; [destruct H2|].
+  change (In (mk_pcon k v) (map (fun v1 : oq * oq * N => (k, fst (fst v1), snd (fst v1), snd v1)) (v0 :: l))).
+  apply in_map_iff. exists v. split; [reflexivity | exact H2].
+Qed.
+
+Lemma flatten_all (Q : N -> oq * oq * N -> Prop) m : no_empty m -> dict_all Q m ->
+  forall c, In c (flatten m) -> exists k v, c = mk_pcon k v /\ Q k v.
+Proof.
+  intros Hne Hm c H. unfold flatten in H. apply in_flat_map in H. destruct H as ([k l] & Hkl & Hc). simpl in Hc.
+  destruct l as [|v0 l]; [exfalso; eapply Hne; eauto|].
+  change (In c (map (fun v : oq * oq * N => (k, fst (fst v), snd (fst v), snd v)) (v0 :: l))) in Hc.
+  apply in_map_iff in Hc. destruct Hc as (v & <- & Hv). exists k, v. split; [reflexivity | exact (Hm _ _ _ Hkl Hv)].
+Qed.
+
+(* the nodes that can occur: GLOBAL_START, START of a plan step, END of a durative plan step *)
+Definition plan_node (plan : list step) (n : N) : Prop :=
+  n = start_plan \/
+  exists k stp, nth_error plan k = Some stp /\ (n = start_node (S k) \/ (n = end_node (S k) /\ st_dur stp <> None)).
+
+Definition nodes_ok (plan : list step) (k : N) (v : oq * oq * N) : Prop := plan_node plan k /\ plan_node plan (snd v).
+
+Lemma gen_node effs conds plan g st : nth_error (mock_step effs conds :: plan) g = Some st -> plan_node plan (start_node g).
+Proof.
+  destruct g as [|k]; [left; reflexivity|]. simpl. intros H. right. exists k, st. split; [exact H | left; reflexivity].
+Qed.
+
+Lemma base_props effs conds plan :
+  forall chain g m, (forall i st, nth_error chain i = Some st -> nth_error (mock_step effs conds :: plan) (g + i) = Some st) ->
+    (dict_all (nodes_ok plan) m -> dict_all (nodes_ok plan) (base_constraints g chain m)) /\
+    (no_empty m -> no_empty (base_constraints g chain m)) /\
+    (forall k v, din k v m -> din k v (base_constraints g chain m)) /\
+    (forall i st, nth_error chain i = Some st ->
+       match st_dur st, (g + i)%nat with
+       | None, gi => din start_plan (Some 0, None, start_node gi) (base_constraints g chain m)
+       | Some d, S j => din (start_node (S j)) (Some d, Some d, end_node (S j)) (base_constraints g chain m)
+       | Some _, O => True
+       end).
+Proof.
+  induction chain as [|st chain IH]; intros g m Hch.
+  - simpl. split; [auto|]. split; [auto|]. split; [auto|]. intros [|i] st H; discriminate.
+  - assert (Hch' : forall i st', nth_error chain i = Some st' -> nth_error (mock_step effs conds :: plan) (S g + i) = Some st').
+    { intros i st' Hi. replace (S g + i)%nat with (g + S i)%nat by lia. apply Hch. exact Hi. }
+    pose proof (Hch 0%nat st eq_refl) as H0. rewrite Nat.add_0_r in H0.
+    cbn [base_constraints].
+    set (m' := match st_dur st with
+               | Some d => match g with O => m | S _ => dict_append (start_node g) (Some d, Some d, end_node g) m end
+               | None => dict_append start_plan (Some 0, None, start_node g) m
+               end).
+    destruct (IH (S g) m' Hch') as (I1 & I2 & I3 & I4).
+    assert (A1 : dict_all (nodes_ok plan) m -> dict_all (nodes_ok plan) m').
+    { intros Hm. unfold m'. destruct (st_dur st) as [d|] eqn:Ed.
+      - destruct g as [|j]; [exact Hm|]. apply dict_all_append; [exact Hm|]. split; [eapply gen_node; exact H0|].
+        simpl. simpl in H0. right. exists j, st. split; [exact H0|]. right. split; [reflexivity | congruence].
+      - apply dict_all_append; [exact Hm|]. split; [left; reflexivity | eapply gen_node; exact H0]. }
+    assert (A2 : no_empty m -> no_empty m').
+    { intros Hm. unfold m'. destruct (st_dur st); [destruct g; [exact Hm|]|]; apply no_empty_append; exact Hm. }
+    assert (A3 : forall k v, din k v m -> din k v m').
+    { intros k v Hd. unfold m'. destruct (st_dur st); [destruct g; [exact Hd|]|]; apply din_append_old; exact Hd. }
+    split; [auto|]. split; [auto|]. split; [auto|].
+    intros [|i] st' Hi.
+    + simpl in Hi. inversion Hi; subst st'. rewrite Nat.add_0_r. destruct (st_dur st) as [d|] eqn:Ed.
+      * destruct g as [|j]; [exact I|]. apply I3. unfold m'. apply din_append_new.
+      * apply I3. unfold m'. apply din_append_new.
+    + simpl in Hi. specialize (I4 i st' Hi). replace (g + S i)%nat with (S g + i)%nat by lia. exact I4.
+Qed.
+
+Lemma add_edges_props eps effs conds plan evs : (forall e, In e evs -> ev_wf (mock_step effs conds :: plan) e) ->
+  forall edges m,
+    (dict_all (nodes_ok plan) m -> dict_all (nodes_ok plan) (add_edges eps evs edges m)) /\
+    (no_empty m -> no_empty (add_edges eps evs edges m)) /\
+    (forall k v, din k v m -> din k v (add_edges eps evs edges m)).
+Proof.
+  intros Hwf. induction edges as [|[i j] edges IH]; intros m; [simpl; auto|].
+  cbn [add_edges].
+  set (m' := match nth_error evs i, nth_error evs j with
+             | Some a, Some b => match edge_constraint eps a b with Some (k, v) => dict_append k v m | None => m end
+             | _, _ => m
+             end).
+  destruct (IH m') as (I1 & I2 & I3).
+  assert (A : (dict_all (nodes_ok plan) m -> dict_all (nodes_ok plan) m') /\ (no_empty m -> no_empty m') /\
+              (forall k v, din k v m -> din k v m')).
+  { unfold m'. destruct (nth_error evs i) as [a|] eqn:Ea; [|auto]. destruct (nth_error evs j) as [b|] eqn:Eb; [|auto].
+    destruct (edge_constraint eps a b) as [[k v]|] eqn:Ee; [|auto].
+    split; [|split; [intros; apply no_empty_append; assumption | intros; apply din_append_old; assumption]].
+    intros Hm. apply dict_all_append; [exact Hm|].
+    destruct (Hwf a (nth_error_In _ _ Ea)) as (sa & Ha & _). destruct (Hwf b (nth_error_In _ _ Eb)) as (sb & Hb & _).
+    unfold edge_constraint in Ee. destruct (Nat.eqb _ _); [discriminate|].
+    destruct (Qeq_bool _ _); inversion Ee; subst; (split; [eapply gen_node; eassumption | simpl; eapply gen_node; eassumption]). }
+  destruct A as (A1 & A2 & A3). split; [auto|]. split; auto.
+Qed.
+
+Lemma snode_start_node i : snode (N.of_nat i) = start_node (S i).
+Proof. reflexivity. Qed.
+Lemma enode_end_node i : enode (N.of_nat i) = end_node (S i).
+Proof. reflexivity. Qed.
+
+Lemma plan_node_snode plan k : plan_node plan (snode k) -> exists stp, nth_error plan (N.to_nat k) = Some stp.
+Proof.
+  intros [E|(i & stp & Hn & [E|[E _]])].
+  - unfold snode, start_plan in E. lia.
+  - rewrite <- snode_start_node in E. apply snode_inj in E. subst k. rewrite Nat2N.id. eauto.
+  - rewrite <- enode_end_node in E. apply snode_enode in E. destruct E.
+Qed.
+
+Lemma plan_node_enode plan k : plan_node plan (enode k) -> exists stp, nth_error plan (N.to_nat k) = Some stp /\ st_dur stp <> None.
+Proof.
+  intros [E|(i & stp & Hn & [E|[E Hd]])].
+  - unfold enode, start_plan in E. lia.
+  - rewrite <- snode_start_node in E. symmetry in E. apply snode_enode in E. destruct E.
+  - rewrite <- enode_end_node in E. apply enode_inj in E. subst k. rewrite Nat2N.id. eauto.
+Qed.
+
+(* the constraints of the converted plan: which nodes occur *)
+Lemma conv_nodes eps effs conds plan edges :
+  let cs := flatten (conv_constraints eps (mock_step effs conds) plan edges) in
+  (forall n, In n (nodes_of cs) -> plan_node plan n) /\
+  (forall i stp, nth_error plan i = Some stp ->
+     In (start_node (S i)) (nodes_of cs) /\
+     match st_dur stp with
+     | Some d => In (start_node (S i), Some d, Some d, end_node (S i)) cs
+     | None => True
+     end).
+Proof.
+  intros cs. unfold cs, conv_constraints.
+  set (mock := mock_step effs conds). set (evs := plan_events eps mock plan).
+  assert (Hch : forall i st, nth_error (mock :: plan) i = Some st -> nth_error (mock :: plan) (0 + i) = Some st) by (intros; assumption).
+  destruct (base_props effs conds plan (mock :: plan) 0%nat [] Hch) as (B1 & B2 & _ & B4).
+  assert (Hwf : forall e, In e evs -> ev_wf (mock :: plan) e) by (intros e He; eapply plan_events_wf; exact He).
+  destruct (add_edges_props eps effs conds plan evs Hwf edges (base_constraints 0 (mock :: plan) [])) as (E1 & E2 & E3).
+  assert (Hall : dict_all (nodes_ok plan) (add_edges eps evs edges (base_constraints 0 (mock :: plan) []))).
+  { apply E1, B1. intros k l v []. }
+  assert (Hne : no_empty (add_edges eps evs edges (base_constraints 0 (mock :: plan) []))).
+  { apply E2, B2. intros k l []. }
+  split.
+  - intros n Hn. apply in_flat_map in Hn. destruct Hn as (c & Hc & Hn).
+    destruct (flatten_all _ _ Hne Hall c Hc) as (k & v & -> & [Q1 Q2]).
+    unfold mk_pcon in Hn. simpl in Hn. destruct Hn as [<-|[<-|[]]]; assumption.
+  - intros i stp Hi. specialize (B4 (S i) stp Hi). simpl in B4.
+    destruct (st_dur stp) as [d|] eqn:Ed.
+    + apply E3 in B4. apply flatten_din in B4. split; [|exact B4].
+      apply in_flat_map. eexists. split; [exact B4|]. left. reflexivity.
+    + apply E3 in B4. apply flatten_din in B4. split; [|exact I].
+      apply in_flat_map. eexists. split; [exact B4|]. right. left. reflexivity.
+Qed.
+
+(* ------------------------------------------------------------------ K. back(forward(pi)) *)
+Lemma back_forward_roundtrip eps effs conds plan edges fuel s :
+  times_nonneg plan = true ->
+  gap_ok eps (plan_events eps (mock_step effs conds) plan) = true ->
+  edges_forward (length (plan_events eps (mock_step effs conds) plan)) edges = true ->
+  convert_to_stn fuel eps (mock_step effs conds) plan edges = Some s ->
+  let cs := flatten (conv_constraints eps (mock_step effs conds) plan edges) in
+  check_stn s = true /\ back_init fuel cs = Some s /\
+  exists bp, back_convert s = BackPlan bp /\ sorted_by_start bp /\ same_instances plan bp /\
+    (forall c, In c cs -> sat_pcon (tt_time bp (model_of s end_plan)) c) /\
+    (forall st k du, In (st, k, du) bp -> 0 <= st /\ st <= orig_time plan (snode k)).
+Proof.
+  intros Hnn Hg Hf Hc cs.
+  destruct (roundtrip_partial (fun _ => edges) eps effs conds plan fuel s Hnn Hg Hf Hc) as (Hs & _ & Hsat & _ & Hle).
+  unfold convert_to_stn in Hc. fold cs in Hc.
+  pose proof (back_init_of_plan_init _ _ _ Hc Hs) as Hb.
+  destruct (conv_nodes eps effs conds plan edges) as [N1 N2]. fold cs in N1, N2.
+  assert (Hsp : starts_present cs = true).
+  { unfold starts_present. apply forallb_forall. intros n Hn. destruct (N1 n Hn) as [->|(i & stp & Hi & [->|[-> Hd]])].
+    - reflexivity.
+    - rewrite <- snode_start_node. destruct (snode_idx (N.of_nat i)) as (_ & -> & _). rewrite orb_true_r. reflexivity.
+    - rewrite <- enode_end_node, enode_pred, snode_start_node.
+      apply orb_true_iff. right. apply mentioned_in. apply (N2 i stp Hi). }
+  destruct (back_times_satisfy_stn fuel cs s Hb Hs Hsp) as (bp & Hbc & Hfacts & Hall & _ & _).
+  split; [exact Hs|]. split; [exact Hb|]. exists bp. split; [exact Hbc|]. split; [apply (bf_sorted _ _ _ Hfacts)|].
+  split; [|split; [exact Hall|]].
+  - split; [apply (bf_nodup _ _ _ Hfacts)|]. split.
+    + intros k. rewrite (bf_steps _ _ _ Hfacts), mentioned_in. split.
+      * intros Hn. destruct (plan_node_snode plan k (N1 _ Hn)) as (stp & Hk). apply nth_error_Some. congruence.
+      * intros Hlt. apply nth_error_Some in Hlt. destruct (nth_error plan (N.to_nat k)) as [stp|] eqn:Hk; [|congruence].
+        destruct (N2 _ _ Hk) as [H1 _]. rewrite <- snode_start_node, N2Nat.id in H1. exact H1.
+    + intros st k du HI. destruct (bf_entry _ _ _ Hfacts _ _ _ HI) as (E1 & _ & E3).
+      assert (Hk : In k (map step_of bp)) by (apply in_map_iff; exists (st, k, du); split; [reflexivity | exact HI]).
+      apply (bf_steps _ _ _ Hfacts) in Hk. apply mentioned_in in Hk.
+      destruct (plan_node_snode plan k (N1 _ Hk)) as (stp & Hstp). exists stp. split; [exact Hstp|].
+      destruct (N2 _ _ Hstp) as [_ H2]. rewrite <- snode_start_node, <- enode_end_node, N2Nat.id in H2.
+      destruct (st_dur stp) as [d'|] eqn:Ed.
+      * assert (Hm : mentioned (enode k) cs = true).
+        { apply mentioned_in. apply in_flat_map. eexists. split; [exact H2|]. right. left. reflexivity. }
+        destruct du as [d|]; [|congruence]. destruct E3 as [_ E3].
+        destruct (Hsat _ H2) as [S1 S2]. simpl in S1, S2. lra.
+      * destruct du as [d|]; [|exact I]. destruct E3 as [Hm _]. apply mentioned_in in Hm.
+        destruct (plan_node_enode plan k (N1 _ Hm)) as (stp' & Hstp' & Hd). congruence.
+  - intros st k du HI. destruct (bf_entry _ _ _ Hfacts _ _ _ HI) as (E1 & E2 & _).
+    split; [exact E2|]. rewrite E1. apply Hle.
+Qed.
+(* ------------------------------------------------------------------ L. the plan converted back is StnPlan.retime *)
+Lemma retime_from_nth s : forall plan k0 i stp,
+  nth_error plan i = Some stp ->
+  exists stp', nth_error (retime_from s k0 plan) i = Some stp' /\
+               st_start stp' = model_of s (start_node (S (k0 + i))) /\ st_dur stp' = st_dur stp /\
+               st_effs stp' = st_effs stp /\ st_conds stp' = st_conds stp /\ st_dyn stp' = st_dyn stp.
+Proof.
+  induction plan as [|st plan IH]; intros k0 i stp H; [destruct i; discriminate|].
+  destruct i as [|i]; simpl in H.
+  - inversion H; subst. eexists. split; [reflexivity|]. rewrite Nat.add_0_r. simpl. auto.
+  - destruct (IH (S k0) i stp H) as (stp' & H1 & H2). exists stp'. split; [exact H1|].
+    replace (k0 + S i)%nat with (S k0 + i)%nat by lia. exact H2.
+Qed.
+
+(* every entry of back(forward(pi)) is the step of [retime s pi] at the same position: same start (up to Qeq), same
+   duration (up to Qeq), and [retime] keeps the action (effects, conditions) of the original step *)
+Lemma back_forward_is_retime eps effs conds plan edges fuel s bp :
+  times_nonneg plan = true ->
+  gap_ok eps (plan_events eps (mock_step effs conds) plan) = true ->
+  edges_forward (length (plan_events eps (mock_step effs conds) plan)) edges = true ->
+  convert_to_stn fuel eps (mock_step effs conds) plan edges = Some s ->
+  back_convert s = BackPlan bp ->
+  length bp = length plan /\
+  forall st k du, In (st, k, du) bp ->
+    exists stp', nth_error (retime s plan) (N.to_nat k) = Some stp' /\ st == st_start stp' /\
+      match du, st_dur stp' with Some d, Some d' => d == d' | None, None => True | _, _ => False end.
+Proof.
+  intros Hnn Hg Hf Hc Hbc.
+  destruct (back_forward_roundtrip eps effs conds plan edges fuel s Hnn Hg Hf Hc) as (Hs & Hb & bp' & Hbc' & _ & Hsame & _ & _).
+  rewrite Hbc in Hbc'. inversion Hbc'; subst bp'. clear Hbc'.
+  destruct Hsame as (Hnd & Hsteps & Hent).
+  pose proof (conv_nodes eps effs conds plan edges) as [N1 N2].
+  set (cs := flatten (conv_constraints eps (mock_step effs conds) plan edges)) in *.
+  assert (Hsp : starts_present cs = true).
+  { unfold starts_present. apply forallb_forall. intros n Hn. destruct (N1 n Hn) as [->|(i & stp & Hi & [->|[-> Hd]])].
+    - reflexivity.
+    - rewrite <- snode_start_node. destruct (snode_idx (N.of_nat i)) as (_ & -> & _). rewrite orb_true_r. reflexivity.
+    - rewrite <- enode_end_node, enode_pred, snode_start_node.
+      apply orb_true_iff. right. apply mentioned_in. apply (N2 i stp Hi). }
+  destruct (back_convert_facts fuel cs s Hb Hs Hsp) as (bp2 & Hbc2 & Hfacts). rewrite Hbc in Hbc2. inversion Hbc2; subst bp2.
+  split.
+  - (* the steps of bp are exactly 0 .. length plan - 1, without repetition *)
+    assert (Hperm : Permutation (map N.to_nat (map step_of bp)) (seq 0 (length plan))).
+    { apply NoDup_Permutation.
+      - apply FinFun.Injective_map_NoDup; [intros a b E; apply N2Nat.inj; exact E | exact Hnd].
+      - apply seq_NoDup.
+      - intros x. rewrite in_seq. split.
+        + intros HI. apply in_map_iff in HI. destruct HI as (k & <- & HI). apply Hsteps in HI. lia.
+        + intros [_ Hx]. apply in_map_iff. exists (N.of_nat x). split; [apply Nat2N.id|]. apply Hsteps. rewrite Nat2N.id. exact Hx. }
+    apply Permutation_length in Hperm. rewrite !map_length, seq_length in Hperm. exact Hperm.
+  - intros st k du HI. destruct (Hent _ _ _ HI) as (stp & Hstp & Hdu).
+    destruct (retime_from_nth s plan 0%nat _ _ Hstp) as (stp' & R1 & R2 & R3 & _).
+    exists stp'. split; [exact R1|]. destruct (bf_entry _ _ _ Hfacts _ _ _ HI) as (E1 & _ & _).
+    split.
+    + rewrite R2, E1. simpl Nat.add. rewrite <- snode_start_node, N2Nat.id. reflexivity.
+    + rewrite R3. exact Hdu.
+Qed.
